@@ -225,7 +225,7 @@ static void case_c02f(const drvargs_t *a,long id){
 /* ------------------------------------------------------------------ C11 */
 typedef struct { long n; uint64_t h; int retried; } pkout_t;
 /* decode packets [from,to) of list with disturbance; out[j] = what packet j's blockin made available */
-typedef struct { int kind; int k; int arg; uint64_t seed; int pagegran; } dist_t;
+typedef struct { int kind; int k; int arg; uint64_t seed; int pagegran; ogg_int64_t goff; } dist_t;   /* goff: added to every granule position (a stream cut out of a very long one) */
 static const char *distname[]={"none","drop","duplicate","truncate","bitflip","random-bytes","header-as-audio","restart-before","fresh-decoder-at","trackonly","zero-length","early-blockin-refused-then-retried","restart-before-renumbered-from-0"};
 #define DIST_KINDS 13
 static int c11_decode(const pktlist_t *pk,const dist_t *D,pkout_t *out,int *chn){
@@ -240,6 +240,7 @@ static int c11_decode(const pktlist_t *pk,const dist_t *D,pkout_t *out,int *chn)
   for(int j=(D->kind==8?D->k:0);j<na;j++){
     pkt_t P=pk->v[3+j]; unsigned char *tmp=NULL; int reps=1; int track=0;
     if(D->pagegran && !P.e_o_s && (j%D->pagegran)!=D->pagegran-1) P.granulepos=-1;   /* per-page granule convention */
+    if(P.granulepos>=0) P.granulepos+=D->goff;
     if(j==D->k){
       switch(D->kind){
       case 1: continue;
@@ -292,14 +293,16 @@ static void case_c11(const drvargs_t *a,long id){
   int na=pk.n-3; if(na<6){ pktlist_free(&pk); res_end(); return; }
   pkout_t *clean=malloc(sizeof(pkout_t)*na), *dis=malloc(sizeof(pkout_t)*na); int ch=0;
   for(int conv=0;conv<2;conv++){
-    dist_t D0={0,-1,0,0,conv?(int)rng_range(&r,2,9):0};
+    static const ogg_int64_t goffs[]={0,0,0,(ogg_int64_t)3<<30,((ogg_int64_t)1<<31)-700,(ogg_int64_t)1<<40,((ogg_int64_t)1<<32)-300};
+    ogg_int64_t goff=goffs[(id/5)%7]; if(goff) res_count("streams_with_granule_positions_beyond_2_to_31",1);
+    dist_t D0={0,-1,0,0,conv?(int)rng_range(&r,2,9):0,goff};
     if(c11_decode(&pk,&D0,clean,&ch)){ res_viol("C05","header-rejected","%s",desc); break; }
     int nk= a->thorough?na:VH_MIN(na,24);
     for(int q=0;q<nk;q++){
       int k= a->thorough?q:(int)rng_below(&r,na);
       if(q==nk-1) k=na-1-(int)rng_below(&r,VH_MIN(na,4));      /* always probe the tail */
       int kind=1+(int)rng_below(&r,DIST_KINDS-1);
-      dist_t D={kind,k,0,rng_next(&r),D0.pagegran};
+      dist_t D={kind,k,0,rng_next(&r),D0.pagegran,goff};
       if(kind==3){ long b=pk.v[3+k].bytes; static const int fr[]={0,1,2,8,50}; int f=fr[rng_below(&r,5)]; D.arg= f<=2?f:(int)(b*f/100); }
       if(kind==4) D.arg=(int)rng_range(&r,1,8);
       if(kind==6) D.arg=(int)rng_below(&r,3);
@@ -451,7 +454,7 @@ static void c13_file(rng_t *r,const drvargs_t *a,long id){
   gen_chain(r,4,a->thorough?12000:6000,GC_ALLOW_EMPTY|GC_MULTICH,&cd); chain_describe(&cd,desc,sizeof desc);
   if(build_chain(&cd,&phys,NULL)){ buf_free(&phys); return; }
   /* damage (or not) */
-  int dmg=(int)rng_below(r,10); const char *dn="intact";
+  int dmg=(int)rng_below(r,11); const char *dn="intact";
   if(dmg==1){ phys.n=rng_range(r,0,(long)phys.n); dn="truncated"; }
   else if(dmg==2){ for(int k=0;k<8;k++) phys.p[rng_below(r,(uint32_t)phys.n)]^=(unsigned char)(1<<rng_below(r,8)); dn="bitflips"; }
   else if(dmg==3){ for(size_t i=0;i<phys.n;i++) phys.p[i]=(unsigned char)rng_next(r); dn="garbage"; }
@@ -470,6 +473,9 @@ static void c13_file(rng_t *r,const drvargs_t *a,long id){
     }
     free(pg); dn= dmg==7?"foreign-bos-twice":"foreign-bos";
   }
+  else if(dmg==10){ /* cut inside the header pages of a LATER link: the first stage of an open (link 0's headers) succeeds, the second (the scan of the other links) fails */
+    pageinfo_t *pg=NULL; int np=page_scan(phys.p,phys.n,&pg); int nb=0; long cut=-1; for(int i=0;i<np;i++) if(pg[i].bos && ++nb==2){ cut= i+1<np? pg[i+1].off+(long)rng_range(r,1,pg[i+1].len>2?pg[i+1].len-1:1) : pg[i].off+pg[i].len; break; }
+    free(pg); if(cut>0 && (size_t)cut<phys.n){ phys.n=(size_t)cut; dn="later-link-headers-cut"; } }
   else if(dmg==8){ /* one more link, placed first or last, that opens but can never be decoded (reads and seeks into it are refused again and again) */
     buf_t o; buf_init(&o); int first=rng_chance(r,0.5);
     if(first){ if(unbuildable_link(r,0x7e57ab1e,&o)) dn="unbuildable-link-first"; buf_add(&o,phys.p,phys.n); }
@@ -516,8 +522,8 @@ static void c13_file(rng_t *r,const drvargs_t *a,long id){
       if(ms.n_close!=1) res_viol("C13","close-count","close ran %ld times for a successfully opened handle: %s",ms.n_close,desc);
       snprintf(scn,sizeof scn,"file-%s|%s|seek%d|%s",how==2?"partial-open":"opened",dn,seekmode,nfail?"some-calls-failed":"all-ok");
     }
-    (void)opened;
     ov_clear(&vf);   /* repeatable */
+    if(!opened && ms.n_close!=0) res_viol("C13","close-ran-for-a-handle-whose-open-failed","open (how %d) returned %d, yet ov_clear ran the close callback %ld time(s): %s",how,ret,ms.n_close,desc);
     if(ms.n_close>1) res_viol("C13","close-count","second ov_clear closed again (%ld): %s",ms.n_close,desc);
   }
   c13_judge(base,scn,desc);
